@@ -71,16 +71,18 @@ Spawn(g) == /\ seeded /\ ncall < MaxCalls /\ \A c \in Copies : gen[c][g] = None
             /\ UNCHANGED <<np, os, out, exout, seeded, noise>>
 
 \* ---- stochastic calls.  kind: "lib" (mating, phenotyping, sampling utilities, configuration sampling, hill climbers,
-\*      prng wrappers), "select" (a selection protocol with an exact optimiser), "pymoo" (genetic optimisers)
+\*      prng wrappers), "select" (a selection protocol with an exact optimiser), "pymoo" (genetic optimisers),
+\*      "pure" (deterministic computations: variance / coancestry matrices, block values, predictions -- no source at all)
 \* sources consumed by a call of kind k given generator r ("none" = rng argument omitted)
 Uses(k, r) ==
-    LET main == IF r = "none" THEN {"np"} ELSE {r}
+    LET main == IF k = "pure" THEN {} ELSE IF r = "none" THEN {"np"} ELSE {r}     \* "pure": a deterministic computation
     IN main \cup (IF k = "pymoo" /\ PymooHidden THEN {"os"} ELSE {})
             \cup (IF k = "pymoo" /\ OpsGlobal THEN {"np"} ELSE {})
             \cup (IF k = "select" /\ SelectLeak THEN {"np"} ELSE {})
 Coord(c, src) == IF src = "np" THEN np[c] ELSE IF src = "py" THEN py[c] ELSE IF src = "os" THEN os[c] ELSE gen[c][src]
 Result(c, k, r) == [src \in Uses(k, r) |-> Coord(c, src)]
 Call(k, r) == /\ ncall < MaxCalls
+              /\ k = "pure" => r = "none"            \* deterministic computations take no generator
               /\ r \in Gens => \A c \in Copies : gen[c][r] # None
               /\ LET U == Uses(k, r) IN
                  /\ np' = [c \in Copies |-> IF "np" \in U THEN Adv(np[c]) ELSE np[c]]
@@ -91,7 +93,7 @@ Call(k, r) == /\ ncall < MaxCalls
               /\ ncall' = ncall + 1
               /\ UNCHANGED <<py, seeded, noise>>
 
-Kinds == {"lib", "select", "pymoo"}
+Kinds == {"lib", "select", "pymoo", "pure"}
 Next == \/ \E c \in Copies, src \in {"py", "np"} : Noise(c, src)
         \/ \E s \in Seeds : Seed(s)
         \/ \E g \in Gens, s \in Seeds : NewGen(g, s)
